@@ -381,7 +381,9 @@ pub fn run(focus: Focus, choices: &[u8], _strict: bool) -> Outcome {
             if have.len() as u32 == total {
               gen_frags.remove(&(w, sn));
             }
-            let count = if focus == Focus::C05 && c.chance(50) {
+            // several fragments per DATAFRAG (groups may overlap what is already there): often
+            // for C05, now and then for the others too
+            let count = if c.chance(if focus == Focus::C05 { 50 } else { 25 }) {
               1 + c.pick((total - start + 1) as usize) as u16
             } else {
               1
